@@ -7,6 +7,7 @@ import GtModel.Model.Assign
 import GtModel.Model.Bounded
 import GtModel.Model.Search
 import GtModel.Model.Heap
+import GtModel.Model.Lazy
 import GtModel.Model.XmlEdits
 import GtModel.Model.MSetEdits
 import GtModel.Model.RoundTripIO
@@ -43,6 +44,7 @@ def table : List (String × Handler) := [
   ("assign", Assign.assignHandler),
   ("bounded", GtModel.Bounded.boundedHandler),
   ("heap", Heap.heapHandler),
+  ("lazy", Lazy.lazyHandler),
   ("scriptxml", Xml.xmlHandler),
   ("pyspace", Xml.spaceHandler),
   ("scriptmset", MSet.msetHandler),
